@@ -458,3 +458,54 @@ func VerifC04EdgeAndBranch() {
 	m3, e := drain(sr)
 	check(m3, e, "Transform")
 }
+
+// (h) a node with an input key: a value of the wrong dynamic type under that key is a failure in every paradigm;
+//     chunks that lack the key are skipped
+func VerifC04InputKey() {
+	ctx := context.Background()
+	vcfg("fifo", 1)
+	f := c04Fn{name: "f"}
+	native := 1 << vchoose("native", 4)
+	g := NewGraph[map[string]any, string]()
+	_ = g.AddLambdaNode("n", f.lambda(native), WithInputKey("q"))
+	_ = g.AddEdge(START, "n")
+	_ = g.AddEdge("n", END)
+	r, err := g.Compile(ctx)
+	vassert(err == nil, "graph with an input-keyed node compiles")
+	a := vsymStr("a")
+	bad := vchoose("bad", 2) == 1
+	var second any = vsymStr("b")
+	want := f.F(a + second.(string))
+	if bad {
+		second = 7 // wrong dynamic type under the input key
+	}
+	chunks := []map[string]any{{"q": a}, {"other": 1}, {"q": second}}
+	whole := map[string]any{"q": a + "x"}
+	if bad {
+		whole = map[string]any{"q": 7}
+	}
+	// Invoke / Stream on one value
+	o1, e1 := r.Invoke(ctx, whole)
+	sr, e2 := r.Stream(ctx, whole)
+	var o2 string
+	if e2 == nil {
+		o2, e2 = c04Drain(sr)
+	}
+	// Collect / Transform on chunks
+	o3, e3 := r.Collect(ctx, schema.StreamReaderFromArray(chunks))
+	sr4, e4 := r.Transform(ctx, schema.StreamReaderFromArray(chunks))
+	var o4 string
+	if e4 == nil {
+		o4, e4 = c04Drain(sr4)
+	}
+	if bad {
+		vassert(e1 != nil, "Invoke reports a value of the wrong type under the input key")
+		vassert(e2 != nil, "Stream reports a value of the wrong type under the input key")
+		vassert(e3 != nil, "Collect reports a value of the wrong type under the input key")
+		vassert(e4 != nil, "Transform reports a value of the wrong type under the input key")
+		return
+	}
+	vassert(e1 == nil && e2 == nil && e3 == nil && e4 == nil, "all paradigms succeed on well-typed keyed input")
+	vassert(o1 == f.F(a+"x") && o2 == o1, "Stream (concatenated) equals Invoke on keyed input")
+	vassert(o3 == want && o4 == want, "Collect and Transform see exactly the chunks that carry the key")
+}
